@@ -35,7 +35,7 @@ def shrink(sc, fails):
     """Greedy: drop external events one at a time while the failure persists."""
     cur = sc
     changed = True
-    budget = 60
+    budget = 60 if len(sc["events"]) <= 2000 else 0  # very long runs (session-id wraps) are reported as they are
     while changed and budget > 0:
         changed = False
         for i in range(len(cur["events"])):
